@@ -29,7 +29,6 @@ let res_tok (r : (n, n) res) : string =
   | RFoundCount (b, c) -> "f" ^ tok_of_bool b ^ ":" ^ tn c
   | RPrevCount (None, c) -> "p-:" ^ tn c
   | RPrevCount (Some v, c) -> "p" ^ tn v ^ ":" ^ tn c
-  | RDiverge -> "DIVERGE"
 
 let sort_log l = List.sort (fun (a, x) (b, y) ->
   let c = ZA.compare (z_of_n a) (z_of_n b) in if c <> 0 then c else ZA.compare (z_of_n x) (z_of_n y)) l
@@ -97,7 +96,7 @@ let eval inp obs =
          s := s';
          sobs := obs_of o r2 lg2 (n_of_z (ZA.of_int (List.length s'.s_items))) (total s'.s_items)
                    (List.map (fun ((k, _), _) -> k) s'.s_items) :: !sobs;
-         (match o with OResize (a, b) -> cur_mw := z_of_n a; cur_ms := zz_of_z b | _ -> ());
+         (match o with OResize (a, b) -> cur_mw := z_of_n a; cur_ms := (let z = zz_of_z b in if ZA.sign z < 0 then ZA.zero else z) | _ -> ());
          (match !impl_rest with
           | [_; _; st] :: rest -> impl_rest := rest; if not (st_ok st !cur_mw !cur_ms) then direct_ok := false
           | _ :: rest -> impl_rest := rest; direct_ok := false
